@@ -54,24 +54,32 @@ def subdir(work, name):
 # --------------------------------------------------------------------------- generators
 
 
-def load_edges(path):
+def load_edges(path, expected):
     """edges.ndjson (one JSON string per line, written by CRDTTypes!LogEdge) -> init, adjacency"""
-    ids, out, first = {}, [], None
+    ids, out, n = {}, [], 0
     with open(path) as f:
         for line in f:
             line = line.strip()
             if not line:
                 continue
-            d = json.loads(json.loads(line))
+            try:
+                d = json.loads(json.loads(line))
+            except ValueError:
+                raise V.Inconclusive("edge log %s is damaged (line %d)" % (path, n + 1))
+            n += 1
             for k in ("src", "dst"):
                 if d[k] not in ids:
                     ids[d[k]] = len(ids)
                     out.append([])
             s, t = ids[d["src"]], ids[d["dst"]]
-            if first is None:
-                first = s
             out[s].append((d["act"], t))
-    return first, out
+    if n != expected:
+        raise V.Inconclusive("edge log %s has %d transitions, TLC generated %d" % (path, n, expected))
+    # the initial state is the only one without events (SId starts with the empty event sequence)
+    inits = [v for k, v in ids.items() if k.startswith("<<<<>>,")]
+    if len(inits) != 1:
+        raise V.Inconclusive("edge log %s: cannot identify the initial state" % path)
+    return inits[0], out
 
 
 def covering_walks(init, out, maxlen, rng):
@@ -212,7 +220,8 @@ def run(chk):
     def gen_job(kind, cfg, bounds, timeout, tag="gen-"):
         d = subdir(work, tag + kind)
         set_consts(os.path.join(d, cfg), *bounds)
-        res = V.tlc(d, "CRDTTypes", cfg=cfg, workers=1, timeout=timeout, deadlock=False)
+        # several workers append to the same file: one short line per write, checked for integrity in load_edges
+        res = V.tlc(d, "CRDTTypes", cfg=cfg, workers=4, timeout=timeout, deadlock=False)
         return res, os.path.join(d, "edges.ndjson")
 
     def sim_job(kind, cfg, num, simlen, timeout):
@@ -295,7 +304,7 @@ def run(chk):
             chk.add_tlc("%s%s: complete history graph of CRDTTypes (AuthorPrefix, PrefixObserved), transitions exported" % (tag, kind), res)
             if not res.ok or not os.path.exists(epath):
                 raise V.Inconclusive("generator %s%s failed: %s" % (tag, kind, res.error or res.violation or "no edges"))
-            init, out = load_edges(epath)
+            init, out = load_edges(epath, res.generated - 1)
             walks, total, nstates = covering_walks(init, out, maxlen, rng)
             b = bounds[kind]
             gen_notes[tag + kind] = {"states": nstates, "transitions": total, "covering_walks": len(walks),
